@@ -823,8 +823,31 @@ pub fn assumptions(prop: &str) -> Vec<String> {
         "the simulated kernel (simk) follows the io_uring ABI for the behaviours the oracles rely on".to_string(),
         "histories are those safe Rust callers can produce (futures pinned, not polled after completion)".to_string(),
     ];
-    let _ = prop;
     v.push("sequential consistency between scheduling points; weak-memory effects are not modelled".to_string());
+    let extra: &[&str] = match prop {
+        "C01" | "C02" | "C05" | "C06" | "C09" => &[
+            "simk's completion shapes (single CQE, F_MORE streams, zero-copy result + notification incl. on failure/cancel, -ECANCELED/-EINTR, buffer-select flags) are the ones K-conf compares with the running kernel; completion shapes no Linux kernel produces are not explored",
+            "operations are those of the catalogue in harness/src/ops.rs (about 75 shapes); an a10 operation type not in it is not covered",
+        ],
+        "C03" => &["an executor that re-polls only when woken; Ring::poll calls are made by the harness (sequential) or by one ring thread (schx)"],
+        "C04" => &["the kernel consumes submission entries atomically at io_uring_enter (or, with a kernel thread, at any scheduling point as one actor step)"],
+        "C07" | "C12" => &[
+            "descriptor identity is what the simulated kernel's descriptor table and the close(2) interposer see; descriptors made by other system calls are tracked only where noted (try_clone)",
+            "known findings (descriptors/buffers delivered to abandoned operations) are reported as KNOWN-FINDING and do not stop the search below that history",
+        ],
+        "C08" | "C15" => &["pool geometry: 1-4 buffers of 1-8 bytes; the 16-bit ring tail starts at 0 or just below 2^16"],
+        "C10" => &["kernel answers per request: every byte count 0..=remaining, or EIO; buffers of up to 3 (thorough 5) members"],
+        "C11" => &["a wake-up is judged lost only if the poller can never return (deadlock under the scheduler), not by elapsed time"],
+        "C13" => &[
+            "part B trusts the running Linux kernel (6.18) and libc as the oracle; errno identity is demanded only where a10 passes the kernel's error on",
+            "the synchronous fallbacks for kernels without an opcode are not reachable on this kernel and are not covered",
+        ],
+        "C14" | "C16" => &["pure functions: exhaustive over the stated input alphabets only"],
+        "C17" => &["the inotify instance is a stand-in (interposed inotify_init1/inotify_add_watch handing out watch descriptors 1,2,..); records are the ones the harness writes, well-formed as the statement requires"],
+        "C18" => &["kernel answers are those enumerated (success with granted sizes, 4 setup errors, missing feature bits, k-th mmap/madvise failing, registration failing)"],
+        _ => &[],
+    };
+    v.extend(extra.iter().map(|s| s.to_string()));
     v
 }
 
